@@ -320,6 +320,9 @@ pub fn transcript_mode(cfg: &Cfg, path: &str) -> i32 {
     };
     let mut w = std::io::BufWriter::with_capacity(1 << 20, f);
     let _ = writeln!(w, "# features={} seed={} tier={}", features(), cfg.seed, cfg.tier_name());
+    // the compile probe (props/c20_probe.rs): that it compiled in this build is the point; its result is one more line
+    #[cfg(feature = "probe")]
+    let _ = writeln!(w, "P 0 T {}", crate::props::c20_probe::probe());
     for (sec, n) in c.sections() {
         let chunk = 1u64 << 14;
         let mut lo = 0;
@@ -351,6 +354,37 @@ fn bins() -> Vec<(String, String)> {
         .collect()
 }
 
+/// feature variants of the harness that did not compile although the errors sit in the
+/// feature-independent compile probe only (decided by ./check): (name, features, build log)
+fn broken_builds() -> Vec<(String, String, String)> {
+    std::env::var("VERIF_C20_BROKEN")
+        .unwrap_or_default()
+        .split(';')
+        .filter_map(|e| {
+            let p: Vec<&str> = e.split('|').collect();
+            if p.len() == 3 {
+                Some((p[0].to_string(), p[1].to_string(), p[2].to_string()))
+            } else {
+                None
+            }
+        })
+        .collect()
+}
+
+fn report_broken(st: &mut Stats) {
+    for (name, feats, log) in broken_builds() {
+        let text = std::fs::read_to_string(&log).unwrap_or_default();
+        let first: String = text.lines().filter(|l| l.starts_with("error")).take(3).collect::<Vec<_>>().join(" / ");
+        st.eval();
+        st.fail(
+            format!("feature-set-breaks-compilation-of-feature-independent-code:{feats}"),
+            json!({"kind": "feature-build", "build": name, "features": feats}),
+            1,
+            format!("src/props/c20_probe.rs (no cfg(feature) code, feature-less API only) compiles in other builds but not with features [{feats}]: {first}"),
+        );
+    }
+}
+
 fn direction_tolerated(layout: &Layout, la: &str, lb: &str, fa: &str, fb: &str) -> bool {
     // line: "<tag> <id> <dir>"
     let likely_differs = fa.contains("likelysubtags") != fb.contains("likelysubtags");
@@ -378,7 +412,9 @@ pub fn compare(cfg: &Cfg, only: Option<(char, u64)>) -> Stats {
         }
     };
     let others = bins();
-    if others.len() < 3 {
+    report_broken(&mut st);
+    let lenient = !broken_builds().is_empty();
+    if others.len() < 3 && !lenient {
         st.oracle_error(format!("VERIF_C20_BINS names only {} other builds (at least 3 feature sets besides the main build are needed)", others.len()));
         return st;
     }
@@ -455,7 +491,7 @@ pub fn compare(cfg: &Cfg, only: Option<(char, u64)>) -> Stats {
             st.oracle_error(format!("two builds report the same feature set: {all:?}"));
             return st;
         }
-        if !all.iter().any(|f| !f.contains("likelysubtags")) || !all.iter().any(|f| f.contains("macros")) || !all.iter().any(|f| *f == "none") {
+        if !lenient && (!all.iter().any(|f| !f.contains("likelysubtags")) || !all.iter().any(|f| f.contains("macros")) || !all.iter().any(|f| *f == "none")) {
             st.oracle_error(format!("the feature sets {all:?} do not cover none / without likelysubtags / with macros"));
             return st;
         }
@@ -547,6 +583,20 @@ pub fn run(cfg: &Cfg) -> Stats {
 }
 
 pub fn replay(case: &Value, st: &mut Stats) {
+    if case["kind"] == json!("feature-build") {
+        // ./check has rebuilt the variants; the build in question is reported again if it still fails
+        let mut s = Stats::new();
+        report_broken(&mut s);
+        let want = case["features"].as_str().unwrap_or("");
+        for (k, f) in s.failures {
+            if k.ends_with(&format!(":{want}")) {
+                st.failures.insert(k.clone(), f);
+                *st.fail_counts.entry(k).or_insert(0) += 1;
+                st.fail_total += 1;
+            }
+        }
+        return;
+    }
     let (Some(sec), Some(idx)) = (case["section"].as_str().and_then(|s| s.chars().next()), case["index"].as_u64()) else { return };
     let mut cfg = crate::props::triples::replay_cfg("C20");
     cfg.seed = case["seed"].as_u64().or_else(|| case["seed"].as_i64().map(|v| v as u64)).unwrap_or(0);
